@@ -10,6 +10,7 @@ from ..r_hygiene import rule_hygiene as _rule_hygiene
 from ..r_rules import rule_overlap_atoms as _rule_overlap
 from ..r_valence import rule_tentative_removal_set as _rule_tentative
 from ..r_rings import rule_tentative_rollback as _rule_rollback
+from ..r_round9 import rule_radical_patch_tristate as _r9_tri
 
 LEVEL = 'other'
 NORMALISERS = {'Standardize.canonicalize', 'Standardize.standardize', 'Standardize.standardize_charges', 'Resonance.fix_resonance',
@@ -32,3 +33,4 @@ def run(ck, repo):
     _rule_overlap(ck, repo, 'C14.D2-overlap-atoms')
     _rule_tentative(ck, repo, 'C14.D4-tentative-removal')
     _rule_rollback(ck, repo, 'C14.D4-tentative-rollback', ['chython.algorithms.standardize.resonance:Resonance.fix_resonance'])
+    _r9_tri(ck, repo, 'C14.D6-radical-patch-tristate')
